@@ -17,6 +17,7 @@ LEVEL = "proof"
 
 def run(rep, tier):
     cx = Ctx(rep, "std")
+    rep.where_by_opcode = cx.opcode_where(cx.roles.verifier())
     vm = vmodel.VerifierModel(cx)
     if not vm.ok:
         return
